@@ -9,6 +9,7 @@ def fix_deprecated_part(rep, tier, sd):
         rep.cov["fix_deprecated"] = "not built yet"
         return
     ws_deprecated.run(rep, tier, sd)
+    ws_deprecated.run_crash(rep, tier, sd)
 
 
 def clean_part(rep, tier, sd):
